@@ -265,6 +265,7 @@ STD = {
     "collections.deque": _deque,
     "collections.OrderedDict": _ordereddict,
     "collections.defaultdict": _defaultdict,
+    "sys.exc_info": lambda I, a, k: (None, None, Opaque("traceback", {"token": "tb", "isinstance_default": False})),
     "itertools.chain": _chain,
     "collections.ChainMap": _chainmap,
     "itertools.chain.from_iterable": _chain_from_iterable,
